@@ -807,6 +807,8 @@ class Unit:
             # The resulting quantity may get quantized. Therefore we
             # have to calculate the final amount before creating the result!
             amnt, unit = self * other.unit
+            if unit is None:  # dimensions cancel
+                return other.amount * amnt
             return (other.amount * amnt) * unit
         return NotImplemented
 
@@ -899,6 +901,8 @@ class Unit:
             # The resulting quantity may get quantized. Therefore we
             # have to calculate the final amount before creating the result!
             amnt, unit = self / other.unit
+            if unit is None:  # dimensions cancel
+                return amnt / other.amount
             return (amnt / other.amount) * unit
         return NotImplemented
 
@@ -1619,11 +1623,15 @@ class Quantity(metaclass=QuantityMeta):
             # The resulting quantity may get quantized. Therefore we
             # have to calculate the final amount before creating the result!
             amnt, unit = self.unit * other.unit
+            if unit is None:  # dimensions cancel
+                return self.amount * other.amount * amnt
             return (self.amount * other.amount * amnt) * unit
         if isinstance(other, Unit):
             # The resulting quantity may get quantized. Therefore we
             # have to calculate the final amount before creating the result!
             amnt, unit = self.unit * other
+            if unit is None:  # dimensions cancel
+                return self.amount * amnt
             return (self.amount * amnt) * unit
         if isinstance(other, Real):
             return self.__class__(self.amount * Decimal(other), self.unit)
@@ -1669,6 +1677,8 @@ class Quantity(metaclass=QuantityMeta):
                 # have to calculate the final amount before creating the
                 # result!
                 amnt, unit = self.unit / other.unit
+                if unit is None:  # dimensions cancel
+                    return self.amount / other.amount * amnt
                 return (self.amount / other.amount * amnt) * unit
         if isinstance(other, Unit):
             if self.__class__ is other.qty_cls:
@@ -1683,6 +1693,8 @@ class Quantity(metaclass=QuantityMeta):
                 # have to calculate the final amount before creating the
                 # result!
                 amnt, unit = self.unit / other
+                if unit is None:  # dimensions cancel
+                    return self.amount * amnt
                 return (self.amount * amnt) * unit
         if isinstance(other, Real):
             return self.__class__(self.amount / Decimal(other), self.unit)
